@@ -65,6 +65,13 @@ func runC12(c *Ctx) {
 	isReaderMethod := func(fn *ssa.Function) bool {
 		return fn.Signature.Recv() != nil && typeIs(fn.Signature.Recv().Type(), readerT)
 	}
+	// the reader's methods are the unit of the who-may-write rule: each is analysed
+	// as a function of its own
+	for _, fn := range m.Funcs {
+		if fn.Pkg == pkg && fn.Parent() == nil && fn.Synthetic == "" && isReaderMethod(fn) {
+			m.anchor(fn)
+		}
+	}
 	z := &Polyizer{Atom: func(v ssa.Value) string {
 		if _, f, ok := loadedField(v); ok {
 			switch f {
@@ -84,7 +91,8 @@ func runC12(c *Ctx) {
 		}
 		return ""
 	}}
-	eofFact := func(f Fact, want bool) bool {
+	var eofFact func(f Fact, want bool) bool
+	eofFact = func(f Fact, want bool) bool {
 		if f.Y != nil {
 			// the inlined comparison offset >= pkgEnd
 			l, r := z.Of(f.X).String(), z.Of(f.Y).String()
@@ -98,6 +106,78 @@ func runC12(c *Ctx) {
 		}
 		call, ok := f.X.(*ssa.Call)
 		return ok && m.callee(call.Common()) == eof && (f.Op == token.EQL) == want
+	}
+	// A reader method that changes nothing and returns a nil error only when
+	// !EOF() (PeekByte): `err == nil` after calling it is the !EOF() test.
+	peekLike := map[*ssa.Function]int{} // 1 yes, 2 no
+	var isPeekLike func(fn *ssa.Function) bool
+	isPeekLike = func(fn *ssa.Function) bool {
+		if v, ok := peekLike[fn]; ok {
+			return v == 1
+		}
+		peekLike[fn] = 2
+		if fn == nil || !isReaderMethod(fn) || len(fn.Blocks) == 0 || fn.Signature.Results().Len() == 0 {
+			return false
+		}
+		for _, b := range fn.Blocks {
+			for _, in := range b.Instrs {
+				switch x := in.(type) {
+				case *ssa.Store:
+					if _, isLocal := cellOf(x.Addr); !isLocal {
+						return false
+					}
+				case *ssa.Call:
+					if cal := m.callee(x.Common()); cal != eof && cal != offsetM {
+						return false
+					}
+				case *ssa.Defer, *ssa.Go:
+					return false
+				}
+			}
+		}
+		g := scanIG(m, fn, nil)
+		nNil := 0
+		last := fn.Signature.Results().Len() - 1
+		for _, rc := range g.ReturnCases() {
+			isNil, _ := g.caseNil(rc, rc.Vals[last])
+			if !isNil {
+				if _, nonNil := g.caseNil(rc, rc.Vals[last]); !nonNil {
+					return false
+				}
+				continue
+			}
+			nNil++
+			if !hasFact(g.CaseFacts(rc), func(ft Fact) bool { return eofFact(ft, false) }) {
+				return false
+			}
+		}
+		if nNil == 0 {
+			return false
+		}
+		peekLike[fn] = 1
+		return true
+	}
+	eofFact0 := eofFact
+	eofFact = func(f Fact, want bool) bool {
+		if eofFact0(f, want) {
+			return true
+		}
+		if want {
+			return false
+		}
+		return isNilFact(f, token.EQL, func(v ssa.Value) bool {
+			var call *ssa.Call
+			switch x := v.(type) {
+			case *ssa.Call:
+				call = x
+			case *ssa.Extract:
+				call, _ = x.Tuple.(*ssa.Call)
+				if call != nil && x.Index != call.Call.Signature().Results().Len()-1 {
+					return false
+				}
+			}
+			return call != nil && isPeekLike(m.callee(call.Common()))
+		})
 	}
 
 	// ================= R1 =================
